@@ -20,13 +20,19 @@ const (
 
 func (r Result) String() string { return [...]string{"unsat", "sat", "unknown"}[r] }
 
-// Solver drives one incremental SMT solver process over pipes.
+// backend evaluates a batch of SMT-LIB2 commands and returns everything the solver
+// printed in response.
+type backend interface {
+	eval(cmds string) string
+	close()
+}
+
+// Solver drives one incremental SMT solver: libz3 in-process (name "z3"), or a solver
+// process over pipes ("z3-pipe", "z3-new", "cvc5").
 type Solver struct {
 	Name    string
-	cmd     *exec.Cmd
-	in      io.WriteCloser
-	w       *bufio.Writer
-	out     *bufio.Reader
+	be      backend
+	pending strings.Builder
 	level   int
 	decl    map[string]int // symbol -> level at which it was declared
 	byLevel [][]string
@@ -41,57 +47,65 @@ type Solver struct {
 	Log      io.Writer // optional transcript
 }
 
-// SolverCmd returns the command line of a known solver.
-func SolverCmd(name string, timeoutMs int) []string {
-	switch name {
-	case "z3", "z3-new":
-		return []string{name, "-in", "-t:" + strconv.Itoa(timeoutMs)}
-	case "cvc5":
-		return []string{"cvc5", "--incremental", "--lang=smt2", "--produce-models", "--tlimit-per=" + strconv.Itoa(timeoutMs)}
-	}
-	return []string{name}
-}
-
 func Start(name string, ctx *Ctx, timeoutMs int) (*Solver, error) {
-	argv := SolverCmd(name, timeoutMs)
-	cmd := exec.Command(argv[0], argv[1:]...)
-	in, err := cmd.StdinPipe()
-	if err != nil {
-		return nil, err
+	s := &Solver{Name: name, decl: map[string]int{}, byLevel: [][]string{nil}, ctx: ctx}
+	switch name {
+	case "z3":
+		be, err := newInproc(timeoutMs)
+		if err != nil {
+			return nil, err
+		}
+		s.be = be
+	case "z3-pipe":
+		be, err := newPipe([]string{"z3", "-in", "-t:" + strconv.Itoa(timeoutMs)})
+		if err != nil {
+			return nil, err
+		}
+		s.be = be
+	case "z3-new":
+		be, err := newPipe([]string{"z3-new", "-in", "-t:" + strconv.Itoa(timeoutMs)})
+		if err != nil {
+			return nil, err
+		}
+		s.be = be
+	case "cvc5":
+		be, err := newPipe([]string{"cvc5", "--incremental", "--lang=smt2", "--produce-models", "--tlimit-per=" + strconv.Itoa(timeoutMs)})
+		if err != nil {
+			return nil, err
+		}
+		s.be = be
+		s.send("(set-logic ALL)")
+	default:
+		return nil, fmt.Errorf("unknown solver %q", name)
 	}
-	out, err := cmd.StdoutPipe()
-	if err != nil {
-		return nil, err
-	}
-	cmd.Stderr = nil
-	if err := cmd.Start(); err != nil {
-		return nil, err
-	}
-	s := &Solver{Name: name, cmd: cmd, in: in, w: bufio.NewWriterSize(in, 1<<16), out: bufio.NewReaderSize(out, 1<<16), decl: map[string]int{}, byLevel: [][]string{nil}, ctx: ctx}
 	s.send("(set-option :print-success false)")
 	s.send("(set-option :produce-models true)")
-	if name == "cvc5" {
-		s.send("(set-logic ALL)")
-	}
 	return s, nil
 }
 
 func (s *Solver) Close() {
-	if s == nil || s.cmd == nil {
-		return
+	if s != nil && s.be != nil {
+		s.be.close()
+		s.be = nil
 	}
-	s.in.Close()
-	s.cmd.Process.Kill()
-	s.cmd.Wait()
-	s.cmd = nil
 }
 
 func (s *Solver) send(line string) {
 	if s.Log != nil {
 		fmt.Fprintln(s.Log, line)
 	}
-	s.w.WriteString(line)
-	s.w.WriteByte('\n')
+	s.pending.WriteString(line)
+	s.pending.WriteByte('\n')
+}
+
+func (s *Solver) exchange() string {
+	cmds := s.pending.String()
+	s.pending.Reset()
+	out := s.be.eval(cmds)
+	if s.Log != nil {
+		fmt.Fprintln(s.Log, "; -> "+strings.TrimSpace(out))
+	}
+	return out
 }
 
 func (s *Solver) Level() int { return s.level }
@@ -144,48 +158,6 @@ func (s *Solver) Assert(t *Term) {
 	s.send("(assert " + t.String() + ")")
 }
 
-func (s *Solver) readLine() string {
-	s.w.Flush()
-	line, err := s.out.ReadString('\n')
-	if err != nil {
-		return "(error \"solver pipe: " + err.Error() + "\")"
-	}
-	return strings.TrimSpace(line)
-}
-
-func (s *Solver) readSexp() string {
-	var sb strings.Builder
-	depth := 0
-	started := false
-	for {
-		line := s.readLine()
-		sb.WriteString(line)
-		sb.WriteByte(' ')
-		inStr := false
-		for _, ch := range line {
-			switch {
-			case ch == '"':
-				inStr = !inStr
-			case inStr:
-			case ch == '(':
-				depth++
-				started = true
-			case ch == ')':
-				depth--
-			}
-		}
-		if strings.HasPrefix(line, "(error") && depth <= 0 {
-			return sb.String()
-		}
-		if started && depth <= 0 {
-			return sb.String()
-		}
-		if !started && line != "" {
-			return sb.String()
-		}
-	}
-}
-
 // Check decides the current assertion stack extended by extra (may be nil). When
 // the answer is sat and want is non-empty, the values of those terms are returned
 // keyed by their printed form.
@@ -201,37 +173,30 @@ func (s *Solver) Check(extra *Term, want []*Term) (Result, map[string]uint64) {
 		s.declare(w)
 	}
 	s.send("(check-sat)")
+	out := strings.TrimSpace(s.exchange())
+	first := out
+	if i := strings.IndexByte(out, '\n'); i >= 0 {
+		first = strings.TrimSpace(out[:i])
+	}
 	var res Result
-	for {
-		line := s.readLine()
-		if line == "" {
-			continue
+	switch {
+	case first == "sat" && !strings.Contains(out, "(error"):
+		res = Sat
+		s.NSat++
+	case first == "unsat" && !strings.Contains(out, "(error"):
+		res = Unsat
+		s.NUnsat++
+	default:
+		res = Unknown
+		s.NUnknown++
+		if first != "unknown" && len(s.Errors) < 20 {
+			s.Errors = append(s.Errors, firstN(out, 300))
 		}
-		switch {
-		case line == "sat":
-			res = Sat
-			s.NSat++
-		case line == "unsat":
-			res = Unsat
-			s.NUnsat++
-		case line == "unknown" || strings.HasPrefix(line, "timeout"):
-			res = Unknown
-			s.NUnknown++
-		default:
-			// error output: inconclusive
-			s.Errors = append(s.Errors, line)
-			res = Unknown
-			s.NUnknown++
-			if !strings.HasPrefix(line, "(error") {
-				continue
-			}
-		}
-		break
 	}
 	var model map[string]uint64
 	if res == Sat && len(want) > 0 {
 		model = map[string]uint64{}
-		for i := 0; i < len(want); i += 64 {
+		for i := 0; i < len(want) && res == Sat; i += 64 {
 			j := i + 64
 			if j > len(want) {
 				j = len(want)
@@ -244,16 +209,15 @@ func (s *Solver) Check(extra *Term, want []*Term) (Result, map[string]uint64) {
 			}
 			sb.WriteString("))")
 			s.send(sb.String())
-			resp := s.readSexp()
-			if strings.Contains(resp, "(error") {
-				s.Errors = append(s.Errors, resp)
-				res = Unknown
-				break
-			}
+			resp := s.exchange()
 			vals, ok := parseValues(resp, len(want[i:j]))
-			if !ok {
-				s.Errors = append(s.Errors, "unparsable get-value response: "+resp)
+			if !ok || strings.Contains(resp, "(error") {
+				if len(s.Errors) < 20 {
+					s.Errors = append(s.Errors, "get-value: "+firstN(resp, 300))
+				}
 				res = Unknown
+				s.NSat--
+				s.NUnknown++
 				break
 			}
 			for k, w := range want[i:j] {
@@ -267,10 +231,71 @@ func (s *Solver) Check(extra *Term, want []*Term) (Result, map[string]uint64) {
 	return res, model
 }
 
+func firstN(s string, n int) string {
+	if len(s) > n {
+		return s[:n]
+	}
+	return s
+}
+
+// ---------------------------------------------------------------------------------
+// pipe backend
+
+type pipeBackend struct {
+	cmd *exec.Cmd
+	in  io.WriteCloser
+	w   *bufio.Writer
+	out *bufio.Reader
+}
+
+func newPipe(argv []string) (*pipeBackend, error) {
+	cmd := exec.Command(argv[0], argv[1:]...)
+	in, err := cmd.StdinPipe()
+	if err != nil {
+		return nil, err
+	}
+	out, err := cmd.StdoutPipe()
+	if err != nil {
+		return nil, err
+	}
+	if err := cmd.Start(); err != nil {
+		return nil, err
+	}
+	return &pipeBackend{cmd: cmd, in: in, w: bufio.NewWriterSize(in, 1<<16), out: bufio.NewReaderSize(out, 1<<16)}, nil
+}
+
+const doneMark = "@@done@@"
+
+func (p *pipeBackend) eval(cmds string) string {
+	p.w.WriteString(cmds)
+	p.w.WriteString("(echo \"" + doneMark + "\")\n")
+	p.w.Flush()
+	var sb strings.Builder
+	for {
+		line, err := p.out.ReadString('\n')
+		if strings.Contains(line, doneMark) {
+			return sb.String()
+		}
+		sb.WriteString(line)
+		if err != nil {
+			sb.WriteString("(error \"solver pipe: " + err.Error() + "\")")
+			return sb.String()
+		}
+	}
+}
+
+func (p *pipeBackend) close() {
+	p.in.Close()
+	p.cmd.Process.Kill()
+	p.cmd.Wait()
+}
+
+// ---------------------------------------------------------------------------------
+// parsing get-value responses
+
 // parseValues extracts the n values of a get-value response ((t v) (t v) ...).
 func parseValues(resp string, n int) ([]uint64, bool) {
 	toks := tokenize(resp)
-	// parse top-level list of pairs
 	pos := 0
 	if pos >= len(toks) || toks[pos] != "(" {
 		return nil, false
@@ -279,12 +304,10 @@ func parseValues(resp string, n int) ([]uint64, bool) {
 	var out []uint64
 	for pos < len(toks) && toks[pos] == "(" {
 		pos++
-		// skip term sexp
 		pos = skipSexp(toks, pos)
 		if pos < 0 {
 			return nil, false
 		}
-		// value sexp
 		end := skipSexp(toks, pos)
 		if end < 0 {
 			return nil, false
@@ -372,7 +395,6 @@ func parseValue(toks []string) (uint64, bool) {
 		}
 		return 0, false
 	}
-	// (_ bvN W)
 	if len(toks) == 5 && toks[0] == "(" && toks[1] == "_" && strings.HasPrefix(toks[2], "bv") {
 		v, err := strconv.ParseUint(toks[2][2:], 10, 64)
 		return v, err == nil
